@@ -74,7 +74,7 @@ _STATE = ('(List (String × List UnitElem) × Nat × List String × UStore)')
 
 GROUP = {'name': 'UnitDefs',
          'imports': ['Cellml.Tie.UnitDefsView'],
-         'header': 'open Units',
+         'header': 'open Cellml.Tie.PUnitDefs\nopen Units',
          'functions': [
              _MAKE,
              _MAKE_STR,
